@@ -61,6 +61,10 @@ class Instr:
         return self.name if self.args is None else f"{self.name}({self.args})"
 
     def bare(self):
+        if self.tag and self.tag[0] == "unk" and self.tag[1] in ("[", "{", "="):
+            # other attribute shapes a foreign attribute may have
+            a = self.args or "x"
+            return {"[": f"#[{self.name}[{a}]]", "{": f"#[{self.name}{{{a}}}]", "=": f"#[{self.name} = \"{a.replace(chr(34), '')}\"]"}[self.tag[1]]
         return f"#[{self.inner()}]"
 
 
@@ -193,7 +197,7 @@ class G:
         if self.pr("tuple_cpart", 0.05):
             return "(" + ", ".join(self.ch(["i32", "String", "u8"]) for _ in range(self.r.randrange(1, 4))) + ")"
         if self.pr("generic_cpart", 0.1):
-            return self.ch(["G<i32>", "G<T>", "H::<'x, u8>", "K<'x, 'y>", "L<'a>", "m::G<Vec<u8>>"])
+            return self.ch(["G<i32>", "G<T>", "H::<'x, u8>", "K<'x, 'y>", "L<'a>", "m::G<Vec<u8>>", "K<'x, 'x>", "K<'a, 'x>", "N<'y, 'x, 'y, T>"])
         return self.ch(["A", "B", "C", "m::D"] if not self.pr("odd_cpart", 0.05) else CPARTS)
 
     def trait_params(self, name, is_enum):
@@ -495,6 +499,22 @@ class G:
                 vat.append(Instr("type_hint", "as " + ("{}" if shape == "tuple" else "()"), tag=("th", None)))
                 fields = self.shape_fields(shape, max(1, nf), cparts, shape == "tuple")
             vs.append(Variant(f"V{k}", shape, fields, vat))
+        if not prim and len(vs) >= 2 and self.pr("variant_repeat_run", 0.0):
+            # a deliberate run: one variant opens `repeat` and carries something repeatable, later variants opt out / stop
+            for v in vs:
+                v.attrs = [a for a in v.attrs if a.name not in ("repeat", "skip_repeat", "stop_repeat")]
+            s0 = r.randrange(0, len(vs) - 1)
+            head = vs[s0]
+            if not any(a.tag and a.tag[0] == "mmap" for a in head.attrs):
+                head.attrs.append(Instr(self.ch(["into", "from", "map", "owned_into", "from_owned"]), self.ch([f"W{s0}", "{ E::V0 }", f"W{s0}"]), tag=("mmap", None)))
+            head.attrs.insert(r.randrange(len(head.attrs) + 1), Instr("repeat", self.ch([None, "", "map", "map, ghost", "map, type_hint"]), tag=("rep", None)))
+            for v in vs[s0 + 1:]:
+                t = r.random()
+                if t < 0.35:
+                    v.attrs.insert(r.randrange(len(v.attrs) + 1), Instr("skip_repeat", None, tag=("rep", None)))
+                elif t < 0.5:
+                    v.attrs.insert(r.randrange(len(v.attrs) + 1), Instr("stop_repeat", None, tag=("rep", None)))
+                    break
         self.unknowns(attrs, vs, False)
         it = Item("enum", name, "enum", self.generics(), attrs, variants=vs)
         it.meta["cparts"] = cparts
@@ -509,17 +529,19 @@ class G:
             attrs.insert(r.randrange(len(attrs) + 1), Instr("allow_unknown", None, tag=("au", None)))
         for _ in range(r.randrange(1, 3)):
             nm = self.ch(["parent", "ghost", "child", "literal", "pattern", "type_hint", "children", "serde", "doc_hidden", "ghost_ref"])
-            attrs.insert(r.randrange(len(attrs) + 1), Instr(nm, self.ch([None, "A", "x: { 1 }", "rename = \"x\""]), tag=("unk", None)))
+            attrs.insert(r.randrange(len(attrs) + 1), Instr(nm, self.ch([None, "A", "x: { 1 }", "rename = \"x\""]), tag=("unk", self.ch([None, None, None, None, "[", "{", "="]))))
         if members and self.pr("member_unknowns", 0.6):
             m = self.ch(members)
             nm = self.ch(["where_clause", "child_parents", "children", "allow_unknown", "serde", "try_into_existing", "owned_try_into_existing"])
-            m.attrs.insert(r.randrange(len(m.attrs) + 1), Instr(nm, self.ch([None, "T: Clone", "x", "skip"]), tag=("unk", None)))
+            m.attrs.insert(r.randrange(len(m.attrs) + 1), Instr(nm, self.ch([None, "T: Clone", "x", "skip"]), tag=("unk", self.ch([None, None, None, None, "[", "{", "="]))))
 
     def tree(self, name="S"):
         """flattened struct: child / child_parents / parent(...)"""
         r = self.r
         shape = self.ch(["named", "named", "tuple"])
         cparts = [self.ch(["A", "B"])] if not self.pr("multi_cpart", 0.2) else ["A", "B"]
+        if self.pr("generic_cpart", 0.0):
+            cparts[0] = self.ch(["G<i32>", "G::<i32>", "m::G<Vec<u8>>", "L<'a>"])
         attrs = []
         for c in cparts:
             for _ in range(r.randrange(1, 3)):
@@ -561,9 +583,17 @@ class G:
                 if self.pr("member_instr", 0.35):
                     fa.append(self.member_map_instr(cparts, target_named=True, nfields=nf))
             fields.append(Field(NAMES[k] if shape == "named" else None, self.ch(["i32", "String", "Inner", "m::Inner", "&'a str"]), fa))
+        ghost_only = None
+        if used_prefixes and self.pr("ghost_only_child", 0.0):
+            base = self.ch(used_prefixes)
+            ghost_only = base + [self.ch(["gm", "gm", "5", "pp"])]
+            if ghost_only in used_prefixes:
+                ghost_only = None
         if used_prefixes and not self.pr("drop_child_parents", 0.05):
             r.shuffle(used_prefixes) if self.pr("shuffle_cp", 0.5) else None
             keep = [pth for pth in used_prefixes if not self.pr("drop_cp_entry", 0.03)]
+            if ghost_only:
+                keep.append(ghost_only)
             ded = (self.ch(cparts) + "| ") if self.pr("dedicated", 0.25) else ""
             attrs.append(Instr("child_parents", ded + ", ".join(".".join(pth) + ": " + self.ch(["P", "m::Q", "R<T>"]) + self.ch(["", "", " as {}", " as ()"]) for pth in keep), tag=("cp", None)))
             if self.pr("second_cp", 0.3):
@@ -574,7 +604,10 @@ class G:
                     attrs.append(cp2)
                 else:
                     attrs.insert(len(attrs) - 1, cp2)
-        if self.pr("ghosts", 0.15) and used_prefixes:
+        if ghost_only:
+            # a nested struct that no member is flattened into: it exists only through struct-level ghost entries
+            attrs.append(Instr(self.ch(["ghosts", "ghosts", "ghosts_owned"]), ".".join(ghost_only) + "@" + self.ch(["gx", "0"]) + ": { 9 }" + (", " + ".".join(ghost_only) + "@gy: { 10 }" if self.pr("x", 0.3) else ""), tag=("ghosts", None)))
+        elif self.pr("ghosts", 0.15) and used_prefixes:
             pth = self.ch(used_prefixes)
             ded = (self.ch(cparts) + "| ") if self.pr("child_ghosts_ded", 0.2) else ""
             attrs.append(Instr(self.ch(["ghosts", "ghosts_owned"]), ded + ".".join(pth) + "@" + self.ch(["gx", "0"]) + ": { 7 }" + (", top: { 1 }" if self.pr("x", 0.3) else ""), tag=("ghosts", None)))
@@ -598,6 +631,14 @@ class G:
         r = self.r
         is_enum = self.pr("enum_item", 0.3)
         names = [self.ch(ALL24 if self.pr("fallible", 0.3) else MAP12) for _ in range(r.randrange(1, 3))]
+        if self.pr("overlap_names", 0.4):
+            # instruction names whose kind sets contain one another (map ⊃ from ⊃ from_owned ..): several repeat templates
+            # of different width can be open at the same time
+            fam = self.ch([["map", "from", "from_owned", "map_owned"], ["map", "into", "owned_into", "map_owned"], ["map_ref", "from_ref", "ref_into", "map"],
+                           ["into", "owned_into", "ref_into"], ["from", "from_owned", "from_ref"]])
+            names = [self.ch(fam) for _ in range(r.randrange(2, 4))]
+            if self.pr("fallible", 0.3):
+                names = [try_name(n) for n in names]
         if is_enum:
             names = [n for n in names if "existing" not in n] or ["map"]
         cps = ["A", "B", "C", "m::D", "E5", "F6", "G<i32>"]
@@ -672,18 +713,18 @@ PROFILES = {
     "enum-members": {"max_variants": 3, "payload_heavy": 0.85, "member_instr": 0.55, "member_try": 0.4, "try_pair": 0.35, "fallible": 0.6, "dedicated": 0.3,
                      "multi_cpart": 0.3, "type_hint": 0.25, "multi_instr": 0.5, "ghost_field": 0.1, "variant_map": 0.2},
     "enum-prim": {"enum_prim": 1.0, "max_variants": 5, "default_case": 0.6, "fallible": 0.4, "lit": 0.6, "pat": 0.7},
-    "tree": {"max_fields": 6, "max_depth": 3, "member_instr": 0.3, "fallible": 0.3, "multi_cpart": 0.3, "hints": 0.2, "ghosts": 0.2, "dedicated": 0.25, "mixed_levels": 0.3, "child_ghosts_ded": 0.35},
+    "tree": {"max_fields": 6, "max_depth": 3, "member_instr": 0.3, "fallible": 0.3, "multi_cpart": 0.3, "hints": 0.2, "ghosts": 0.2, "dedicated": 0.25, "mixed_levels": 0.3, "child_ghosts_ded": 0.35, "ghost_only_child": 0.2, "generic_cpart": 0.15},
     "trait-params": {"max_fields": 3, "vars": 0.5, "attr_params": 0.4, "update": 0.3, "quick_return": 0.2, "default_case": 0.4, "trait_repeat": 0.3,
                      "multi_instr": 0.7, "fallible": 0.4, "member_instr": 0.3},
     "repeat": {"max_fields": 6, "min_fields": 2, "member_repeat": 0.35, "member_instr": 0.5, "ghost_field": 0.15, "max_variants": 4, "variant_map": 0.3,
-               "trait_repeat": 0.4, "vars": 0.3, "update": 0.2, "multi_instr": 0.6, "type_hint": 0.2},
+               "trait_repeat": 0.4, "vars": 0.3, "update": 0.2, "multi_instr": 0.6, "type_hint": 0.2, "variant_repeat_run": 0.35},
     "multi-counterpart": {"multi_cpart": 1.0, "dedicated": 0.6, "member_instr": 0.6, "ghost_field": 0.2, "ghosts": 0.3, "where_clause": 0.3, "multi_instr": 0.5,
                           "fallible": 0.3, "variant_map": 0.4, "type_hint": 0.3, "variant_ghost": 0.15, "variant_ghosts": 0.1, "try_pair": 0.15, "child_ghosts_ded": 0.5},
     "generics": {"generics": 1.0, "generic_cpart": 0.7, "where_clause": 0.5, "max_fields": 2, "trailing_comma": 0.2, "multi_cpart": 0.3, "fallible": 0.3, "dedicated": 0.4},
     "expr": {"deep_expr": 0.8, "member_instr": 0.7, "ghost_field": 0.2, "ghosts": 0.2, "vars": 0.4, "update": 0.3, "quick_return": 0.15, "default_case": 0.3,
              "variant_map": 0.5, "max_fields": 3},
     "parents": {"lit_args": 0.05, "parent_heavy": 0.8, "parent_depth": 3, "nested_parent": 0.45, "nested_instr": 0.5, "max_fields": 4, "fallible": 0.3, "multi_cpart": 0.5, "hints": 0.3,
-                "dedicated": 0.3, "member_instr": 0.3, "update": 0.1, "vars": 0.1},
+                "dedicated": 0.3, "member_instr": 0.3, "update": 0.1, "vars": 0.1, "generic_cpart": 0.25},
     "trait-repeat": {"vars": 0.4, "fallible": 0.3, "attr_params": 0.1, "enum_item": 0.3, "lit": 0.3},
     "shape-change": {"shape_change": 0.8, "shape_ghost": 0.3, "fallible": 0.3, "max_variants": 3, "variant_map": 0.1, "member_try": 0.1, "multi_instr": 0.5},
     "unknowns": {"unknowns": 1.0, "max_fields": 3, "member_instr": 0.3, "multi_instr": 0.5, "max_variants": 3, "variant_map": 0.2},
@@ -718,7 +759,8 @@ def speller(r, mode="random"):
         while k < len(attrs):
             a = attrs[k]
             choice = r.randrange(3) if mode == "random" else {"bare": 0, "single": 1, "grouped": 2}[mode]
-            if (choice == 0 and a.name in bare_names()) or (a.tag and a.tag[0] == "unk" and a.name not in ALL_O2O_NAMES):
+            if (choice == 0 and a.name in bare_names()) or (a.tag and a.tag[0] == "unk"):
+                # foreign / misplaced bare attributes keep their spelling: inside o2o(..) they would mean something else
                 out.append(a.bare())
                 k += 1
             elif choice == 1:
@@ -726,7 +768,11 @@ def speller(r, mode="random"):
                 k += 1
             else:
                 n = r.randrange(1, 4) if mode == "random" else len(attrs)
-                grp = attrs[k:k + n]
+                grp = [a]
+                for x in attrs[k + 1:k + n]:
+                    if x.tag and x.tag[0] == "unk":
+                        break
+                    grp.append(x)
                 out.append("#[o2o(" + ", ".join(x.inner() for x in grp) + ")]")
                 k += len(grp)
         return out
